@@ -34,6 +34,7 @@ class World:
         self.control = bool(plan.get("control", False))
         self.ws = snapshot.WriteSet.take()
         self.base = snapshot.Snapshot.take()
+        self.tables = snapshot.Tables.take()
         self.inj = faults.Injector()
         self.user_x64 = False
         self.progs: dict[str, Any] = {}
@@ -328,15 +329,17 @@ def _do_sweep(w: World, op: dict, idx: int, log: EventLog, viol: list, stats: Co
     executed.append(op)
     if w.control:
         now = snapshot.Snapshot.take()
-        d = snapshot.diff(w.base, now, w.ws.tags)
+        d = snapshot.diff(w.base, now, w.ws.tags) + w.tables.check()
         w.eager_out.setdefault("__noise__", [])
         w.eager_out["__noise__"] = sorted(set(w.eager_out["__noise__"]) | {x["where"] for x in d})
         log.add(i=idx, op="sweep", control=True, n=len(d))
         return
     now = snapshot.Snapshot.take()
     d = [x for x in snapshot.diff(w.base, now, w.ws.tags) if x["where"] not in w.ignore]
+    d += w.tables.check(w.ignore)
     stats["full_sweeps"] += 1
-    stats["full_sweep_entries"] = max(stats["full_sweep_entries"], now.n)
+    stats["full_sweep_entries"] = max(stats["full_sweep_entries"], now.n + w.tables.n)
+    stats["dispatch_table_entries"] = max(stats["dispatch_table_entries"], w.tables.n)
     if d:
         viol.append({"sig": f"C13|sweep|where={d[0]['where']}|kind={d[0]['kind']}|n={len(d)}", "cls": f"sweep|{d[0]['where']}", "detail": {"changed": d[:8], "n": len(d)}, "replay_ops": list(executed)})
     log.add(i=idx, op="sweep", n=len(d), first=d[0]["where"] if d else None)
@@ -706,7 +709,7 @@ def main(tier: str) -> int:
         if not r:
             continue
         for k, v in r.get("stats", {}).items():
-            if k == "full_sweep_entries":
+            if k in ("full_sweep_entries", "dispatch_table_entries"):
                 stats[k] = max(stats[k], v)
             else:
                 stats[k] += v
@@ -744,6 +747,7 @@ def main(tier: str) -> int:
                 "eager_probes_after_conversion_of_same_program": stats.get("eager_probes_after_conversion_of_same_program", 0),
                 "full_sweeps": stats.get("full_sweeps", 0),
                 "full_sweep_entries": stats.get("full_sweep_entries", 0),
+                "host_dispatch_table_entries_in_sweep": stats.get("dispatch_table_entries", 0),
                 "late_decorations": stats.get("late_decorations", 0),
                 "nested_decorations": stats.get("nested_decorations", 0),
                 "set_x64": stats.get("set_x64", 0),
